@@ -17,6 +17,9 @@ pub struct Case {
     pub base: StreamCase,
     /// extra metadata blocks (tag, payload length)
     pub meta: Vec<(u8, usize)>,
+    /// hand-assembled stream (re-headed frames; variable blocking / changing block sizes) instead of the entry point's
+    #[serde(default)]
+    pub asm: Option<super::assembled::Asm>,
 }
 
 type E<'a> = nom::error::Error<&'a [u8]>;
@@ -25,7 +28,19 @@ pub fn check(case: &Case) -> Outcome {
     let b = &case.base;
     let mut out = Outcome::new(b.fp() ^ crate::util::fnv(format!("{:?}", case.meta).as_bytes()));
     let samples = b.inp.samples();
-    let Ok((mut stream, _)) = encode_case(b, &samples) else {
+    let encoded = match &case.asm {
+        None => encode_case(b, &samples).map(|(s, _)| s),
+        Some(a) => {
+            out.class(format!("assembled:variable={}:ragged={}", a.variable, a.ragged));
+            super::assembled::build(b, a, &samples).map(|(s, szs)| {
+                if a.variable && szs.len() >= 3 && szs.windows(2).any(|w| w[0] != w[1]) {
+                    out.class("assembled:variable:>=3-frames-of-differing-size");
+                }
+                s
+            })
+        }
+    };
+    let Ok(mut stream) = encoded else {
         out.class("skipped:encode-failed(C01)");
         return out;
     };
@@ -109,6 +124,60 @@ pub fn check(case: &Case) -> Outcome {
         }
         Err(p) => {
             out.viol(format!("decode-panic:{}", normalise(&p.sig())), format!("{} at {}; {ctxs}", p.msg, p.loc));
+            return out;
+        }
+    }
+    // Decode::copy_signal into a buffer that is longer than the signal (allowed: "panics when dest doesn't have a
+    // sufficient length"), and signal_len
+    let over = catch(|| {
+        for n in 0..parsed.frame_count() {
+            let f = parsed.frame(n).unwrap();
+            let want = f.decode();
+            if f.signal_len() != want.len() || want.len() != f.block_size() * f.subframe_count() {
+                return Some(format!("frame {n}: signal_len {} but decode() gives {} values", f.signal_len(), want.len()));
+            }
+            let extra = 1 + (n * 7 + want.len()) % 70;
+            let mut dest = vec![0x5A5A_5A5Ai32; want.len() + extra];
+            f.copy_signal(&mut dest);
+            if dest[..want.len()] != want[..] {
+                return Some(format!("frame {n}: copy_signal into a buffer {extra} longer than the signal differs from decode()"));
+            }
+            for c in 0..f.subframe_count() {
+                let sf = f.subframe(c).unwrap();
+                let w = sf.decode();
+                if sf.signal_len() != w.len() || w.len() != f.block_size() {
+                    return Some(format!("frame {n} subframe {c}: signal_len {} decode() {} block {}", sf.signal_len(), w.len(), f.block_size()));
+                }
+                let mut d = vec![-0x1234_567i32; w.len() + extra];
+                sf.copy_signal(&mut d);
+                if d[..w.len()] != w[..] {
+                    return Some(format!("frame {n} subframe {c}: copy_signal into a buffer {extra} longer than the signal differs from decode()"));
+                }
+                let res = match sf {
+                    SubFrame::FixedLpc(x) => Some(x.residual()),
+                    SubFrame::Lpc(x) => Some(x.residual()),
+                    _ => None,
+                };
+                if let Some(r) = res {
+                    let w = r.decode();
+                    let mut d = vec![77i32; w.len() + extra];
+                    r.copy_signal(&mut d);
+                    if r.signal_len() != w.len() || d[..w.len()] != w[..] {
+                        return Some(format!("frame {n} subframe {c}: residual copy_signal into a longer buffer differs from decode()"));
+                    }
+                }
+            }
+        }
+        None
+    });
+    match over {
+        Ok(None) => {}
+        Ok(Some(d)) => {
+            out.viol("copy_signal-differs-from-decode", format!("{d}; {ctxs}"));
+            return out;
+        }
+        Err(p) => {
+            out.viol(format!("decode-panic:copy_signal:{}", normalise(&p.sig())), format!("{} at {}; {ctxs}", p.msg, p.loc));
             return out;
         }
     }
@@ -301,7 +370,7 @@ pub fn check_number(c: &NumCase) -> Outcome {
 
 pub fn case_strategy(co: CfgOpts, io: InOpts) -> BoxedStrategy<Case> {
     (stream_case_strategy(co, io, true), proptest::collection::vec((1u8..=126, prop_oneof![Just(0usize), 1usize..=40, Just(300usize)]), 0..=3))
-        .prop_map(|(base, meta)| Case { meta: if base_seed_even(&base) { meta } else { vec![] }, base })
+        .prop_map(|(base, meta)| Case { meta: if base_seed_even(&base) { meta } else { vec![] }, base, asm: None })
         .boxed()
 }
 
@@ -311,7 +380,7 @@ fn base_seed_even(b: &StreamCase) -> bool {
 
 pub fn run(ctx: &Ctx) {
     ctx.rule(
-        "cases = generated streams (all entry points, optional extra metadata blocks); oracle: parser::stream consumes all input, the tree verifies, re-serialises to identical bytes and decodes to the original samples; every frame and every subframe serialised alone round-trips through parser::frame / parser::subframe (consumed bits = count_bits); orders, precision, shift, coefficients, partition orders and Rice parameters agree with the harness' reference reader; a second family writes one frame (fixed blocking, frame number over the whole 31-bit range) or one header (variable blocking, start sample over the whole 36-bit range), boundary-dense, and parses it back; \
+        "cases = generated streams (all entry points, optional extra metadata blocks); oracle: parser::stream consumes all input, the tree verifies, re-serialises to identical bytes and decodes to the original samples; every frame and every subframe serialised alone round-trips through parser::frame / parser::subframe (consumed bits = count_bits); orders, precision, shift, coefficients, partition orders and Rice parameters agree with the harness' reference reader; family `assembled` re-heads frames of the frame-level entry point through Frame::into_parts / FrameHeader::new / Frame::new into variable-blocking streams whose block sizes change from frame to frame (the only way to obtain such streams from this library) with the same oracle; Decode::copy_signal into over-long buffers and signal_len agree with decode() for frames, subframes and residuals; a second family writes one frame (fixed blocking, frame number over the whole 31-bit range) or one header (variable blocking, start sample over the whole 36-bit range), boundary-dense, and parses it back; \
          non-trivial = (predictive subframe and bps != 16) or a frame with a non-trivial header code (explicit block size / sample rate, multi-byte frame number, stereo assignment)",
     );
     let per = ctx.tier.scale(1200, 10);
@@ -321,6 +390,16 @@ pub fn run(ctx: &Ctx) {
     ctx.search("many-frames", 16, per / 3, &|| {
         case_strategy(CfgOpts { max_block: 40, ..Default::default() }, InOpts { budget: 9000, max_channels: 2, ..Default::default() }).prop_map(|mut c| {
             c.base.inp.len = (c.base.inp.len * 37) % 9000 / c.base.inp.channels;
+            c
+        })
+    }, check);
+    // hand-assembled streams: frames of the frame-level entry point re-headed through FrameHeader::new / Frame::new,
+    // variable blocking with block sizes that change from frame to frame (and fixed blocking as a control)
+    ctx.search("assembled", 16, per / 2, &|| {
+        (case_strategy(CfgOpts { max_block: 1200, ..Default::default() }, InOpts { budget: 9000, ..Default::default() }), any::<u64>(), prop_oneof![3 => Just(true), 1 => Just(false)], any::<bool>()).prop_map(|(mut c, seed, variable, ragged)| {
+            c.base.entry = Entry::Frames;
+            c.base.cfg.multithread = false;
+            c.asm = Some(super::assembled::Asm { variable, ragged: ragged && variable, seed, first: 0 });
             c
         })
     }, check);
